@@ -303,6 +303,51 @@ fn snapshot(space: &TypeSpace) -> Value {
     json!({"render": status, "tokens": tokens, "items": items, "api": api_dump(space)})
 }
 
+fn fixed_hash(s: &str) -> String {
+    // DefaultHasher::new() uses fixed keys: deterministic across processes
+    use std::hash::{Hash, Hasher};
+    let mut h = std::collections::hash_map::DefaultHasher::new();
+    s.hash(&mut h);
+    format!("{:016x}", h.finish())
+}
+
+// compact per-step snapshot for history exploration (C16): item list with text hashes, type table
+fn snapshot_compact(space: &TypeSpace) -> Value {
+    let tokens = render(space);
+    let (status, syn_ok, items) = match tokens {
+        Ok(t) => match syn::parse_str::<syn::File>(&t) {
+            Ok(f) => {
+                let its = scan::item_texts(&f);
+                let its: Vec<Value> = its
+                    .as_array()
+                    .unwrap()
+                    .iter()
+                    .map(|it| json!([it[0], it[1], it[2], fixed_hash(it[3].as_str().unwrap_or(""))]))
+                    .collect();
+                ("ok", true, json!(its))
+            }
+            Err(_) => ("ok", false, json!(null)),
+        },
+        Err(m) => ("panic", false, json!(m)),
+    };
+    let api = api_dump(space);
+    let types: Vec<Value> = api["types"]
+        .as_array()
+        .unwrap()
+        .iter()
+        .map(|t| {
+            let mut t = t.clone();
+            if let Some(o) = t.as_object_mut() {
+                o.remove("describe");
+                o.remove("param_ident");
+                o.remove("props_short");
+            }
+            t
+        })
+        .collect();
+    json!({"render": status, "syn_ok": syn_ok, "items": items, "types": types})
+}
+
 fn run_job(job: &Value) -> Value {
     let mut ans = Map::new();
     ans.insert("id".into(), job.get("id").cloned().unwrap_or(json!(null)));
@@ -323,6 +368,7 @@ fn run_job(job: &Value) -> Value {
     let mut space = settings;
     let mut ops_out = Vec::new();
     let want_snap = wants(job, "snapshots");
+    let want_snapc = wants(job, "snapshots_compact");
     let empty = vec![];
     let ops = job.get("ops").and_then(|x| x.as_array()).unwrap_or(&empty);
     let mut dead = false;
@@ -401,6 +447,11 @@ fn run_job(job: &Value) -> Value {
             o.as_object_mut()
                 .unwrap()
                 .insert("snapshot".into(), snapshot(&space));
+        }
+        if want_snapc && !dead {
+            o.as_object_mut()
+                .unwrap()
+                .insert("snapshot".into(), snapshot_compact(&space));
         }
         ops_out.push(o);
     }
